@@ -136,6 +136,8 @@ func c12(r *core.Run) {
 	r.Rule("C12/R3", "removed only when drained: each gauge delete on the reward path is behind Empty(balance)=true or follows a transfer of the whole remaining balance")
 	r.Rule("C12/R5", "the release runs on every reward block: each call on the chain block entry -> gauge iteration is control-dependent only on decisions over block height, parameters and constants")
 	r.Rule("C12/R6", "records decoded on the reward path go into a variable local to the iteration: a decode target shared across gauges accumulates the Coins of every gauge visited before, so later gauges release several tranches at once")
+	r.Rule("C12/R7", "the tranche released from a gauge is converted to whole units by truncation only: cumulative release never runs ahead of the elapsed fraction of the deposit")
+	r.Rule("C12/R8", "the coins moved into a gauge account are the value handed to the gauge constructor, in the constructing unit or in a helper given the gauge: the record (which the release formula reads) and the account agree")
 	r.Rule("C12/R4", "interval: every gauge->module send is behind Before(End, now)=false, Before(End, Start)=false, Equal(End, Start)=false and Empty(balance)=false")
 	bb, _ := p.BlockEntries()
 	var entry *ssa.Function
@@ -200,6 +202,7 @@ func c12(r *core.Run) {
 				}
 			}
 		})
+		roundsDown(r, "C12/R7", "gauge:release-rounds-down", bo.Args[2], p.InstrPos(bo.Instr))
 		r.Check(sent != nil && pooled, "C12/R1", "gauge:released=pooled", p.InstrPos(bo.Instr), "the coin sent is the coin added to the distribution pool", "the amount added to the distribution pool is not the amount pulled from the gauge")
 		// R4
 		eff := &core.Effect{Instr: bo.Instr}
@@ -218,6 +221,10 @@ func c12(r *core.Run) {
 			u := p.FindUnguarded(fn, []*core.Effect{eff}, g.m, true)
 			r.Check(len(u) == 0, "C12/R4", "gauge:pull-guard:"+g.name, p.InstrPos(bo.Instr), "pull behind "+g.name, "coins can be pulled from a gauge without passing the "+g.name+" test at full time precision (release outside the start–end interval or division by a zero duration)")
 		}
+	}
+	// R8 what goes into a gauge account is what its record says
+	if hs8, err := p.Handlers(); err == nil {
+		depositEqualsRecord(r, "C12/R8", hs8)
 	}
 	// R6 gauges (and everything else on the reward path) are decoded into fresh variables
 	staleDecodeTargets(r, "C12/R6", p.Summary(entry).Funcs)
@@ -443,4 +450,136 @@ func hasIfs(fn *ssa.Function) bool {
 
 func blockReachesOrIs(from, to *ssa.BasicBlock) bool {
 	return from == to || blockReaches(from, to)
+}
+
+// depositEqualsRecord: the coins moved into a gauge's account are the very value handed to the gauge constructor
+// (which records it, or adds it to the record of an existing gauge with the same id) — in the unit that calls the
+// constructor or in a helper that is given the gauge. Anything else (e.g. the returned record's Coins) makes the
+// account hold more or less than the record says, and the linear release formula is computed from the record.
+func depositEqualsRecord(r *core.Run, rule string, hs []*core.Handler) {
+	p := r.Prog
+	n := 0
+	for _, key := range []string{"storage.MsgBuyStorage", "storage.MsgPostFile"} {
+		h := core.HandlerByKey(hs, key)
+		if h == nil {
+			r.Undecided(rule, key+":anchor-missing", "", "handler missing")
+			continue
+		}
+		for _, fn := range p.Summary(h.Fn).Funcs {
+			allInstrs(fn, func(in ssa.Instruction) {
+				ctor, ok := in.(*ssa.Call)
+				if !ok {
+					return
+				}
+				isCtor := false
+				for _, cal := range p.Callees(ctor) {
+					for _, o := range p.StoreOps(cal) {
+						if o.Kind == "Set" && o.Module+"/"+o.Prefix == stGauge {
+							isCtor = true
+						}
+					}
+				}
+				if !isCtor {
+					return
+				}
+				var coinsArg ssa.Value
+				for _, a := range dataArgs(ctor) {
+					if strings.HasSuffix(a.Type().String(), "types.Coins") {
+						coinsArg = a
+					}
+				}
+				usesGauge := func(v ssa.Value, at ssa.Instruction) bool {
+					return dependsOnValue(v, ctor)
+				}
+				var amounts []ssa.Value
+				var poss []string
+				for _, bo := range p.BankOps(fn) {
+					if bo.Method == "SendCoinsFromModuleToAccount" && usesGauge(bo.Args[1], bo.Instr) {
+						amounts = append(amounts, bo.Args[2])
+						poss = append(poss, p.InstrPos(bo.Instr))
+					}
+				}
+				allInstrs(fn, func(in2 ssa.Instruction) {
+					hop, ok := in2.(ssa.CallInstruction)
+					if !ok || hop == ssa.CallInstruction(ctor) {
+						return
+					}
+					for _, g := range p.Callees(hop) {
+						passes := false
+						for _, a := range hop.Common().Args {
+							if a == ssa.Value(ctor) || usesGauge(a, hop) && strings.HasSuffix(a.Type().String(), "PaymentGauge") {
+								passes = true
+							}
+						}
+						if !passes {
+							continue
+						}
+						for _, bo := range p.BankOps(g) {
+							if bo.Method != "SendCoinsFromModuleToAccount" {
+								continue
+							}
+							amt := bo.Args[2]
+							if prm, isParam := amt.(*ssa.Parameter); isParam {
+								hc := hop.Common()
+								var actuals []ssa.Value
+								if hc.IsInvoke() {
+									actuals = append(actuals, hc.Value)
+								}
+								actuals = append(actuals, hc.Args...)
+								for i, q := range g.Params {
+									if q == prm && i < len(actuals) {
+										amt = actuals[i]
+									}
+								}
+							}
+							amounts = append(amounts, amt)
+							poss = append(poss, p.InstrPos(bo.Instr))
+						}
+					}
+				})
+				for i, amt := range amounts {
+					n++
+					r.Analysed(core.FnName(fn))
+					r.Check(coinsArg != nil && core.SameValue(amt, coinsArg), rule, key+":deposit=constructor-argument", poss[i], "the gauge account receives the value handed to the gauge constructor", "the gauge account receives a value other than the one handed to the gauge constructor (for instance the returned record's Coins, which is the total of all deposits sharing the id): the account and the record disagree and the release computed from the record over- or under-releases")
+				}
+			})
+		}
+	}
+	r.Floor(rule, n, 2, "gauge deposits")
+}
+
+// dependsOnValue: target is reachable from v by walking operands backwards (same function).
+func dependsOnValue(v ssa.Value, target ssa.Value) bool {
+	seen := map[ssa.Value]bool{}
+	var walk func(x ssa.Value, d int) bool
+	walk = func(x ssa.Value, d int) bool {
+		if x == nil || seen[x] || d > 30 {
+			return false
+		}
+		if x == target {
+			return true
+		}
+		seen[x] = true
+		in, ok := x.(ssa.Instruction)
+		if !ok {
+			return false
+		}
+		var ops []*ssa.Value
+		for _, op := range in.Operands(ops) {
+			if op != nil && *op != nil && walk(*op, d+1) {
+				return true
+			}
+		}
+		if u, ok := x.(*ssa.UnOp); ok {
+			if al, ok := u.X.(*ssa.Alloc); ok {
+				for _, ref := range *al.Referrers() {
+					if st, ok := ref.(*ssa.Store); ok && st.Addr == al && walk(st.Val, d+1) {
+						return true
+					}
+				}
+			}
+		}
+		return false
+	}
+	return walk(v, 0)
 }
